@@ -379,6 +379,44 @@ func c18(c *core.Ctx) {
 					}
 				}
 				c.Check(errsReturned >= 2, key+":codec-errors-returned", marshal.Pos(), "Marshal and Unmarshal errors are both returned", "an encoding/decoding error is dropped: an uncopyable message would be reported as copied")
+				// the destination is the codec's business alone: whatever else is handed the destination
+				// (a reflective clear, a merge) knows less about the message than the codec does - a dynamic
+				// message cleared by reflection loses its descriptor and cannot be unmarshalled into
+				var strangers []string
+				var useOf func(v ssa.Value, depth int)
+				useOf = func(v ssa.Value, depth int) {
+					if depth > 4 || v.Referrers() == nil {
+						return
+					}
+					for _, in := range *v.Referrers() {
+						switch x := in.(type) {
+						case *ssa.DebugRef:
+						case *ssa.MakeInterface:
+							useOf(x, depth+1)
+						case *ssa.ChangeInterface:
+							useOf(x, depth+1)
+						case *ssa.ChangeType:
+							useOf(x, depth+1)
+						case *ssa.TypeAssert:
+							useOf(x, depth+1)
+						case *ssa.Extract:
+							useOf(x, depth+1)
+						case *ssa.If, *ssa.BinOp:
+						case *ssa.Call:
+							if x == unmarshal {
+								continue
+							}
+							if x.Call.IsInvoke() && x.Call.Value == v {
+								continue // the message's own method (Reset, ProtoReflect): it knows itself
+							}
+							strangers = append(strangers, core.InfoOf(&x.Call).Full())
+						default:
+							strangers = append(strangers, fmt.Sprintf("%T", in))
+						}
+					}
+				}
+				useOf(outPar, 0)
+				c.Check(len(strangers) == 0, key+":destination-only-to-the-codec", unmarshal.Pos(), "the destination is handed to the codec's Unmarshal and to nothing else", "the codec adapter hands its destination to "+strings.Join(strangers, ", ")+" besides the codec: whatever that does to the destination (a reflective clear strips a dynamic message of its descriptor) the codec then has to decode into")
 			}
 			// Clone-from-copy: reflect.New(TypeOf(in).Elem())
 			for _, nw := range core.CallsIn(fn, func(_ *ssa.Call, ci core.CallInfo) bool { return ci.Is("reflect.New") }) {
